@@ -103,38 +103,43 @@ class MultimapDataset:
 
 
 def random_dataset(rng, seed, n_reads=14, n_chroms=3):
+    """patterns: (kind, secondary, locus tag) - alignments of one read with the same tag share a locus (one gene)"""
     md = MultimapDataset(seed, n_chroms)
     patterns = [
-        [("fsm_a", 0), ("fsm_a", 1)],                       # primary unique-consistent wins
-        [("alt", 0), ("fsm_a", 1), ("fsm_b", 1)],           # inconsistent primary, two consistent secondaries (tie)
-        [("alt", 0), ("skip_novel", 1)],                    # primary inconsistent vs secondary inconsistent
-        [("alt", 1), ("skip_novel", 1), ("intron", 0)],     # uninformative primary, inconsistent secondaries
-        [("intron", 0), ("inter", 1)],                      # uninformative only
-        [("inter", 0), ("inter", 1)],                       # uninformative tie
-        [("mono", 0), ("fsm_a", 1)],                        # ambiguous primary is not "unique": all consistent kept
-        [("fsm_a", 1), ("fsm_a", 1), ("alt", 0)],           # two consistent secondaries
-        [("fsm_a", 0), ("fsm_a", 0)],                       # exact duplicate record (same locus, see below)
-        [("ism_a", 1), ("fsm_b", 1), ("mono", 1), ("intron", 0)],
+        [("fsm_a", 0, "a"), ("fsm_a", 1, "b")],                        # primary unique-consistent wins
+        [("alt", 0, "a"), ("fsm_a", 1, "b"), ("fsm_b", 1, "c")],       # inconsistent primary, two consistent secondaries (tie)
+        [("alt", 0, "a"), ("skip_novel", 1, "b")],                     # primary inconsistent vs secondary inconsistent
+        [("alt", 1, "a"), ("skip_novel", 1, "b"), ("intron", 0, "c")], # uninformative primary, inconsistent secondaries
+        [("intron", 0, "a"), ("inter", 1, "b")],                       # uninformative only
+        [("inter", 0, "a"), ("inter", 1, "b")],                        # uninformative tie
+        [("mono", 0, "a"), ("fsm_a", 1, "b")],                         # ambiguous primary is not "unique": all consistent kept
+        [("fsm_a", 1, "a"), ("fsm_a", 1, "b"), ("alt", 0, "c")],       # two consistent secondaries
+        [("fsm_a", 0, "a"), ("fsm_a", 0, "a")],                        # exact duplicate record
+        [("ism_a", 1, "a"), ("fsm_b", 1, "b"), ("mono", 1, "c"), ("intron", 0, "d")],
+        # ties between two isoforms of ONE gene (the isoform lists differ, the gene lists do not)
+        [("alt", 0, "a"), ("fsm_a", 1, "b"), ("fsm_b", 1, "b")],
+        [("mono", 0, "a"), ("fsm_a", 1, "a")],
+        [("intron", 0, "a"), ("ism_a", 1, "b"), ("fsm_b", 1, "b")],
     ]
     for i in range(n_reads):
         if i < len(patterns):
             pat = patterns[i]
         else:
-            pat = [(rng.choice(KINDS), int(rng.random() < 0.7)) for _ in range(rng.randint(2, 4))]
-            if all(s for _, s in pat):
-                pat[0] = (pat[0][0], 0)
+            tags = "abcd"
+            pat = []
+            for k in range(rng.randint(2, 4)):
+                tag = tags[k] if (k == 0 or rng.random() > 0.3) else rng.choice(tags[:k])
+                pat.append((rng.choice(KINDS), int(rng.random() < 0.7), tag))
+            if all(sec for _, sec, _ in pat):
+                pat[0] = (pat[0][0], 0, pat[0][2])
         alns = []
-        same_locus = (i == 8) or (i >= len(patterns) and rng.random() < 0.15)
-        first = None
-        for kind, sec in pat:
-            if same_locus and first is not None:
-                li = first
-                jit = 0 if i == 8 else rng.choice([0, 7])
-            else:
-                li = md.new_locus(rng.randrange(n_chroms))
+        by_tag = {}
+        for kind, sec, tag in pat:
+            if tag not in by_tag:
+                by_tag[tag] = md.new_locus(rng.randrange(n_chroms))
                 jit = 0
-            if first is None:
-                first = li
-            alns.append((li, kind, bool(sec), jit))
+            else:
+                jit = 0 if i < len(patterns) else rng.choice([0, 7])
+            alns.append((by_tag[tag], kind, bool(sec), jit))
         md.add_read("mm%02d" % i, alns)
     return md
